@@ -238,6 +238,7 @@ class PubSuite(Suite):
     driver = "drv_c16"
     corpus_prefix = "c16_"
     chunk = 30
+    timeout = 240
     nontrivial_rule = "at least one value fetched and at least one subscriber parked or ended"
 
     def gen_cases(self, rng, tier):
@@ -300,6 +301,8 @@ class PubSuite(Suite):
                 return
             v = int(txt[2:])
             cnt["values"] += 1
+            if s.kicked and s.eof is None:
+                msgs.append("kick-ignored: subscriber %d received %d after it was kicked" % (s.sid, v))
             if s.eof is not None:
                 # values after the first end of stream are outside the statement
                 return
@@ -478,7 +481,7 @@ class ThreadSuite(Suite):
     harness = HARNESS
     driver = "drv_c16"
     corpus_prefix = None
-    chunk = 10
+    chunk = 4
     timeout = 120
     nontrivial_rule = "every case (publisher thread + 1..4 subscriber threads)"
 
